@@ -1,2 +1,3 @@
 pub mod net_chain;
 pub mod powertrain;
+pub mod train;
